@@ -49,8 +49,8 @@ PHASE_TOL = 5e-5  # x (1+max phase): float32 rounding of the propagator phase (m
 
 def plan(tier, seed):
     q = tier == "quick"
-    n = {"insitu": 196 if q else 1120, "chain": 420 if q else 2800, "projection": 840 if q else 8400, "translate": 2100 if q else 21000,
-         "propagate": 1400 if q else 14000, "adjoint": 1400 if q else 14000, "detector": 420 if q else 4200}
+    n = {"insitu": 196 if q else 2240, "chain": 420 if q else 8400, "projection": 840 if q else 25200, "translate": 2100 if q else 63000,
+         "propagate": 1400 if q else 42000, "adjoint": 1400 if q else 42000, "detector": 420 if q else 12600}
     rest = []
     for kind in ("projection", "translate", "propagate", "adjoint", "detector", "chain"):
         rest += [{"kind": kind, "i": i} for i in range(n[kind])]
